@@ -26,6 +26,8 @@ def opt(name, default):
 N = int(opt("--n", "40")); W = int(opt("--workers", "4")); SEED = int(opt("--seed", "1"))
 ESC = opt("--escalate", "45")
 only = opt("--files", None)
+TESTS_ONLY = "--tests-only" in args   # stop after the repository's own tests: verdict "alive" marks a mutant worth a check run
+TT = opt("--test-timeout", "240")
 env = dict(os.environ, GOFLAGS="-mod=mod", GOPROXY="off", GOSUMDB="off", GOTOOLCHAIN="local")
 loader = importlib.machinery.SourceFileLoader("chk", os.path.join(ROOT, "check"))
 spec = importlib.util.spec_from_loader("chk", loader); chk = importlib.util.module_from_spec(spec); loader.exec_module(chk)
@@ -38,16 +40,23 @@ if not os.path.exists(MUT):
                           cwd=os.path.join(ROOT, "harness"), env=env)
 outdir = os.path.join(ROOT, "work", "mut"); os.makedirs(outdir, exist_ok=True)
 outp = os.path.join(outdir, pid + ".jsonl")
+ALIVE_ONLY = "--alive-only" in args   # second stage: run ./check only on mutants an earlier --tests-only pass left alive
+alive = set()
 done = set()
 if os.path.exists(outp):
     for l in open(outp):
-        r = json.loads(l); done.add((r["file"], r["k"], r["old"], r["new"]))
+        r = json.loads(l)
+        if r["verdict"] != "alive" or TESTS_ONLY:
+            done.add((r["file"], r["k"], r["old"], r["new"]))
+        if r["verdict"] == "alive":
+            alive.add((r["file"], r["k"], r["old"], r["new"]))
 points = []
 for f in files:
     out = subprocess.run([MUT, "list", os.path.join("/repo", f)], stdout=subprocess.PIPE, text=True).stdout
     for l in out.splitlines():
         m = json.loads(l); m["file"] = f
-        if (f, m["k"], m["old"], m["new"]) not in done:
+        key = (f, m["k"], m["old"], m["new"])
+        if key not in done and (not ALIVE_ONLY or key in alive):
             points.append(m)
 rnd = random.Random(SEED)
 rnd.shuffle(points)
@@ -87,12 +96,14 @@ def worker(i):
             if rc != 0:
                 verdict = "nobuild"
             if verdict is None:
-                rc, out = sh(["go", "test", "-vet=off", "-count=1", "-timeout", "240s", "./..."], cwd=wt, timeout=900)
+                rc, out = sh(["go", "test", "-vet=off", "-count=1", "-timeout", TT + "s", "./..."], cwd=wt, timeout=900)
                 fails = sorted(set(re.findall(r"^--- FAIL: (\S+)", out, re.M)))
-                pkgfail = re.findall(r"^FAIL\s+(\S+)", out, re.M)
+                pkgfail = re.findall(r"^FAIL[ \t]+(\S+)", out, re.M)
                 other = [f for f in fails if f != "TestTryWriteCSV"]
                 if other or [p for p in pkgfail if p != "rare/cmd/helpers"] or "panic: test timed out" in out:
                     verdict = "tests"; detail = ",".join(other[:3] or pkgfail[:3])
+            if verdict is None and TESTS_ONLY:
+                verdict = "alive"
             if verdict is None:
                 shutil.rmtree(wk, ignore_errors=True)
                 rc, out = sh([os.path.join(ROOT, "check"), pid, "--tier", "quick"], cwd=ROOT, timeout=1500,
